@@ -200,7 +200,10 @@ class IntermediateCodeGen(AbstractCodeGen):
 
         return numericOid
 
-    def getBaseType(self, symName, module):
+    def getBaseType(self, symName, module, _seen=()):
+        if (symName, module) in _seen:
+            raise error.PySmiSemanticError('cyclic type definition of symbol "%s" in module "%s"' % (symName, module))
+
         if module not in self.symbolTable:
             raise error.PySmiSemanticError('no module "%s" in symbolTable' % module)
 
@@ -215,7 +218,7 @@ class IntermediateCodeGen(AbstractCodeGen):
             return symType, symSubtype
 
         else:
-            baseSymType, baseSymSubtype = self.getBaseType(*symType)
+            baseSymType, baseSymSubtype = self.getBaseType(*symType, _seen=_seen + ((symName, module),))
             if isinstance(baseSymSubtype, list):
                 if isinstance(symSubtype, list):
                     # not in place: the list belongs to the symbol table
